@@ -31,7 +31,7 @@ from .pysym import Bl, Call, Exc, Ite, KeySet, LD, LL, Ob, Tm, _const_key, _shor
 JSONLIKE = (type(None), bool, int, float, str, list, dict)
 
 ANNS = ("Hs", "OptHs", "Any", "int", "Optint")
-DEFAULTS = ("MISSING", "None", "value", "factory")
+DEFAULTS = ("MISSING", "None", "value", "factory", "falsy")
 ALIASES = ("-", "meta", "annotated", "config")
 ROLES = ("pos", "kw_only", "after_KW_ONLY", "init_false", "initvar", "classvar", "inherited", "overridden")
 
@@ -105,6 +105,8 @@ class _Hole(SerializableType):
         return hash((type(self).__name__, repr(self.v)))
     def __repr__(self):
         return f"{type(self).__name__}({self.v!r})"
+    def __bool__(self):
+        return self.v != 0  # user classes may be falsy: H(0) is
     def _serialize(self):
         return {"hole": type(self).__name__, "v": self.v}
     @classmethod
@@ -127,6 +129,9 @@ def ann_src(f: F):
 
 def default_value_src(f: F):
     h = f"H_{f.name}"
+    if f.default == "falsy":
+        # a default that is not None but falsy
+        return f"{h}(0)" if f.ann in ("Hs", "OptHs") else ("''" if f.ann == "Any" else "0")
     if f.ann in ("Hs", "OptHs"):
         return f"{h}(7)"
     if f.ann == "Any":
@@ -140,7 +145,7 @@ def field_src(f: F, in_base=False):
     kwargs = []
     if f.default == "None":
         kwargs.append("default=None")
-    elif f.default == "value":
+    elif f.default in ("value", "falsy"):
         if f.ann in ("Hs", "OptHs"):
             kwargs.append(f"default_factory=lambda: {default_value_src(f)}") if False else kwargs.append(f"default={default_value_src(f)}")
         else:
